@@ -255,17 +255,19 @@ Print Assumptions C07_ideal_mixing_never_lowers_S.
 (* ---------------- when the wiring is rebuilt ---------------- *)
 
 (* After ANY history of reset_free_energies / copy / in-place change of a handle followed by reset /
-   copy_models_from(names) / at_state / phase_ref, Tm, Tb, Hfus, Sfus setters, starting from chemicals that
+   copy_models_from(names) / at_state(ph) / at_state(ph, copy=True) / phase_ref, Tm, Tb, Hfus, Sfus setters, starting from chemicals that
    were wired from their own fields at distinct handle addresses, EVERY chemical in the store still has
    H / S functors that (i) refer to its own heat-capacity handle objects and (ii) were built by the generated
-   wiring from exactly its own current inputs -- where the guards under which each method rebuilds are the
+   wiring from exactly its own current inputs and (iii) are not left-over per-phase functors of a former
+   multi-phase handle -- where the guards under which each method rebuilds are the
    ones generated from _chemical.py (Gen_Rewire.v).  No axioms. *)
 Theorem C07_wiring_follows_own_inputs :
   forall (Cc Hc Sc : Type) (d0 : Cc) (merge_cn : cnkind -> cnkind -> Cc -> Cc -> Cc)
          (s : state Cc Hc Sc) (ops : list (op Cc Hc Sc)) (c : chem Cc Hc Sc),
     inv Cc Hc Sc d0 s -> In c (snd (run Cc Hc Sc d0 merge_cn s ops)) ->
     w_cn _ _ _ c = c_cn _ _ _ c /\
-    w_in _ _ _ c = current Cc Hc Sc d0 (fst (run Cc Hc Sc d0 merge_cn s ops)) c.
+    w_in _ _ _ c = current Cc Hc Sc d0 (fst (run Cc Hc Sc d0 merge_cn s ops)) c /\
+    w_narrow _ _ _ c = None.
 Proof. exact wiring_is_own. Qed.
 Print Assumptions C07_wiring_follows_own_inputs.
 
